@@ -333,6 +333,8 @@ type genEv struct {
 // genDAG builds n events with ids 1..n; parents point to lower ids, sometimes to ids that are connected
 // from the start (900+) or that never arrive (800+).
 func genDAG(r *Rand, n int, outside bool) []genEv {
+	// event types without size accounting report Size() == 0: in one case of eight every event does, otherwise some do
+	zeroSizes := r.Chance(1, 8)
 	evs := make([]genEv, n)
 	lam := map[uint64]uint64{}
 	for i := 0; i < n; i++ {
@@ -364,7 +366,10 @@ func genDAG(r *Rand, n int, outside bool) []genEv {
 			}
 		}
 		lam[id] = maxL + 1
-		evs[i] = genEv{id: id, lamport: maxL + 1, size: int(r.Pick(1, 5, 10, 10, 37, 100))}
+		evs[i] = genEv{id: id, lamport: maxL + 1, size: int(r.Pick(0, 1, 5, 10, 10, 37, 100))}
+		if zeroSizes {
+			evs[i].size = 0
+		}
 		evs[i].parents = ps
 	}
 	return evs
